@@ -11,8 +11,8 @@ KERNEL_MODULES = ("sse2::", "sse41::", "avx2::", "avx512::", "neon::")
 
 
 def flavour(F):
-    if F.cfg == "portable1":
-        return "portable1"
+    if F.cfg in ("portable1", "neon1"):
+        return "portable1"        # no run-time detection, hence no statics
     if F.cfg.startswith("pure"):
         return "pure"
     return "asm"
@@ -95,7 +95,7 @@ def rule_G4(ctx, F):
                    "%s references static %s %s" % (p, sp, "(detection cache)" if ok else "-- shared state reachable outside the detection modules"))
     fl = flavour(F)
     ctx.floor("function bodies scanned for shared state", nbodies, 150)
-    ctx.floor("detection-cache static references", nstatic, {"asm": 4, "pure": 3, "portable1": 0}[fl])
+    ctx.floor("detection-cache static references", nstatic, {"asm": 4, "pure": 3, "portable1": 0, "neon1": 0}.get(fl, 3))
     ctx.extra.setdefault("G4", {})[F.cfg] = dict(bodies=nbodies, static_refs=nstatic, shared_state_calls=natomic, ffi_calls=nffi)
 
 
